@@ -109,7 +109,7 @@ class StartWorkflowHandler(StabilizeHandler[StartWorkflow]):
                 self.set_workflow_status(execution, WorkflowStatus.BUFFERED)
                 # Atomic: update execution status + message deduplication
                 with self.repository.transaction(self.queue) as txn:
-                    txn.update_workflow_status(execution)
+                    txn.update_workflow_status(execution, expected_status="NOT_STARTED")
                     if message.message_id:
                         txn.mark_message_processed(
                             message_id=message.message_id,
@@ -157,7 +157,7 @@ class StartWorkflowHandler(StabilizeHandler[StartWorkflow]):
             self.set_workflow_status(execution, WorkflowStatus.TERMINAL)
             # Atomic: update execution status + message deduplication
             with self.repository.transaction(self.queue) as txn:
-                txn.update_workflow_status(execution)
+                txn.update_workflow_status(execution, expected_status="NOT_STARTED")
                 if message.message_id:
                     txn.mark_message_processed(
                         message_id=message.message_id,
@@ -173,7 +173,7 @@ class StartWorkflowHandler(StabilizeHandler[StartWorkflow]):
 
         # Atomic: update execution status + queue all initial stages + message deduplication
         with self.repository.transaction(self.queue) as txn:
-            txn.update_workflow_status(execution)
+            txn.update_workflow_status(execution, expected_status="NOT_STARTED")
             if message.message_id:
                 txn.mark_message_processed(
                     message_id=message.message_id,
